@@ -56,6 +56,7 @@ impl Runner {
             "C09" => props::c09::n_items(self.c09.as_ref().unwrap(), ctx),
             "C08" => props::c08::n_items(self.c09.as_ref().unwrap(), ctx),
             "C11" => props::c11::n_items(&self.c09.as_ref().unwrap().work, ctx),
+            "C12" => props::c12::n_items(&self.c09.as_ref().unwrap().work, ctx),
             _ => 0,
         }
     }
@@ -67,6 +68,7 @@ impl Runner {
             "C09" => props::c09::run_item(self.c09.as_ref().unwrap(), ctx, i),
             "C08" => props::c08::run_item(self.c09.as_ref().unwrap(), ctx, i),
             "C11" => props::c11::run_item(&self.c09.as_ref().unwrap().work, ctx, i),
+            "C12" => props::c12::run_item(&self.c09.as_ref().unwrap().work, ctx, i),
             _ => {}
         }
     }
@@ -165,6 +167,8 @@ fn replay(args: &[String]) -> i32 {
                     props::c08::replay(&mut ctx, &case);
                 } else if prop == "C11" {
                     props::c11::replay(&mut ctx, &case);
+                } else if prop == "C12" {
+                    props::c12::replay(&mut ctx, &case);
                 }
                 println!("{}", serde_json::to_string_pretty(&json!({"findings": ctx.findings, "evaluations": ctx.evals})).unwrap());
                 if ctx.findings.is_empty() { 0 } else { 1 }
